@@ -2,38 +2,118 @@ package verifsim
 
 import (
 	"bufio"
+	"flag"
 	"fmt"
 	"os"
-
-	"k8s.io/apimachinery/pkg/apis/meta/v1/unstructured"
+	"strings"
 )
 
-// Main is the CLI entry point.
+// Main is the CLI entry point: pkosim <driver> [flags]; traces go to -out (ndjson).
 func Main(args []string) int {
 	if len(args) == 0 {
 		fmt.Fprintln(os.Stderr, "usage: pkosim <driver> [flags]")
 		return 2
 	}
-	switch args[0] {
-	case "smoke":
-		out := bufio.NewWriter(os.Stdout)
-		defer out.Flush()
-		w := NewWorld(out)
-		w.EnvCreate(NewObjectSet("a1", []PhaseSpec{
-			{Name: "p1", Objects: []*unstructured.Unstructured{ConfigMap("cm1", "x")}},
-			{Name: "p2", Objects: []*unstructured.Unstructured{Widget("w1", 1)}},
-		}))
-		for i := 0; i < 3; i++ {
-			w.RunPass("os", KOS("a1"))
+	drv := args[0]
+	fs := flag.NewFlagSet(drv, flag.ExitOnError)
+	outPath := fs.String("out", "", "trace file (default stdout)")
+	seed := fs.Int64("seed", 1, "base seed")
+	n := fs.Int("n", 10, "number of walks / cases")
+	steps := fs.Int("steps", 60, "steps per walk")
+	scen := fs.String("scenarios", "", "comma separated scenario names (default all)")
+	mode := fs.String("mode", "atomic", "atomic | api (interleaving granularity)")
+	profile := fs.String("profile", "rollout", "disturbance profile")
+	shard := fs.Int("shard", 0, "shard index")
+	shards := fs.Int("shards", 1, "number of shards")
+	_ = fs.Parse(args[1:])
+
+	f := os.Stdout
+	if *outPath != "" {
+		var err error
+		f, err = os.Create(*outPath)
+		if err != nil {
+			fmt.Fprintln(os.Stderr, err)
+			return 2
 		}
-		w.EnvSetWidgetStatus(KW("w1"), "Ready")
-		w.RunPass("os", KOS("a1"))
-		w.EnvDelete(KOS("a1"), false)
-		for i := 0; i < 3; i++ {
-			w.RunPass("os", KOS("a1"))
-		}
-		return 0
+		defer f.Close()
 	}
-	fmt.Fprintln(os.Stderr, "unknown driver", args[0])
-	return 2
+	out := bufio.NewWriterSize(f, 1<<20)
+	defer out.Flush()
+	w := NewWorld(out)
+
+	var scs []Scenario
+	if *scen == "" {
+		scs = Scenarios()
+	} else {
+		for _, name := range strings.Split(*scen, ",") {
+			s, ok := ScenarioByName(name)
+			if !ok {
+				fmt.Fprintln(os.Stderr, "unknown scenario", name)
+				return 2
+			}
+			scs = append(scs, s)
+		}
+	}
+
+	switch drv {
+	case "smoke":
+		w.Reset("smoke")
+		scs[0].Setup(w)
+		for i := 0; i < 3; i++ {
+			w.RunPass("os", KOS("a1"))
+		}
+		w.Settle(10)
+		return 0
+	case "random":
+		o := ProfileOpts(*profile)
+		o.Steps = *steps
+		o.PassAtomic = *mode == "atomic"
+		for i := 0; i < *n; i++ {
+			if i%*shards != *shard {
+				continue
+			}
+			sc := scs[i%len(scs)]
+			RandomWalk(w, sc, *seed*100003+int64(i), o)
+		}
+	case "adopt-table":
+		AdoptTable(w, *seed, *n, *shard, *shards)
+	default:
+		if d, ok := extraDrivers[drv]; ok {
+			return d(w, fs, driverArgs{seed: *seed, n: *n, steps: *steps, scs: scs, mode: *mode, profile: *profile, shard: *shard, shards: *shards})
+		}
+		fmt.Fprintln(os.Stderr, "unknown driver", drv)
+		return 2
+	}
+	out.Flush()
+	fmt.Fprintf(os.Stderr, "events=%d panics=%d\n", w.NumEvents(), w.Panics)
+	return 0
+}
+
+type driverArgs struct {
+	seed          int64
+	n, steps      int
+	scs           []Scenario
+	mode, profile string
+	shard, shards int
+}
+
+var extraDrivers = map[string]func(w *World, fs *flag.FlagSet, a driverArgs) int{}
+
+// ProfileOpts returns the disturbance profile of a property family.
+func ProfileOpts(p string) RandomOpts {
+	switch p {
+	case "rollout": // C03, C06: workload status changes, drift, no ownership games
+		return RandomOpts{EnvProb: 0.35, EnvBudget: 4, Settle: true}
+	case "collision": // C01, C02: third parties re-own / create between reconciles
+		return RandomOpts{EnvProb: 0.35, EnvBudget: 6, AllowReown: true, Settle: true}
+	case "teardown": // C04, C05
+		return RandomOpts{EnvProb: 0.3, EnvBudget: 6, AllowReown: true, AllowCRDelete: true, AllowArchive: true, AllowOrphan: true, Crashes: 1, Settle: true}
+	case "pause": // C09
+		return RandomOpts{EnvProb: 0.4, EnvBudget: 8, AllowPause: true, AllowReown: true, Settle: true}
+	case "chaos": // C10
+		return RandomOpts{EnvProb: 0.3, EnvBudget: 4, Faults: 3, Crashes: 2, Settle: true}
+	case "all":
+		return RandomOpts{EnvProb: 0.35, EnvBudget: 8, AllowReown: true, AllowCRDelete: true, AllowArchive: true, AllowPause: true, AllowOrphan: true, Faults: 2, Crashes: 1, Settle: true}
+	}
+	return RandomOpts{EnvProb: 0.3, EnvBudget: 3, Settle: true}
 }
